@@ -300,6 +300,9 @@ pub fn cases(seed: u64, tier: Tier) -> Cases {
         let v2: String = std::iter::repeat('%').take(len / 3).collect();
         one(&mut cs, "long:/a?k", &[Push::Lit("/a".into()), Push::Query("k".into(), v2)], 0, true);
     }
+    // which argument the generated client pushes for each `{name}` of the template, and under which query key: the
+    // generated source for seeded definitions against Model/Emit.lean
+    crate::ops::emit::add(&mut cs, &mut rng, tier);
     cs
 }
 
